@@ -345,7 +345,10 @@ impl State {
                 self.pct_low -= 1;
                 self.tasks[pick].prio = self.pct_low;
                 let others: Vec<usize> = runnable.iter().copied().filter(|t| *t != pick).collect();
-                pick = others[(self.steps as usize) % others.len()];
+                // (a forced switch above may have left `pick` as the only candidate)
+                if !others.is_empty() {
+                    pick = others[(self.steps as usize) % others.len()];
+                }
             }
         } else {
             self.same_pick_run = 0;
